@@ -49,7 +49,8 @@ func kindMismatch(node *yaml.Node, kind yaml.Kind) bool {
 	if node.Alias != nil {
 		node = node.Alias
 	}
-	if node.ShortTag() == nullTag {
+	if node.ShortTag() == nullTag && node.Kind == yaml.ScalarNode {
+		// a null (`rules:` with no value) is fine everywhere, a mapping or list tagged !!null is still a mapping or list
 		return false
 	}
 	return node.Kind != kind
